@@ -428,6 +428,12 @@ class Evaluator:
         if isinstance(st.target, ast.Subscript):
             base = self.eval(st.target.value, env)
             idx = self.eval_index(st.target.slice, env)
+            if isinstance(base, (Arr, ColView)) and is_array(idx) and idx.kind != "b" and \
+                    not isinstance(env, LoopEnv) and opname in ("Add", "Sub"):
+                # a[idx] op= v with an integer index array (unique indices, A4):
+                #   new[j] = op(old[j], v[k]) for the k with idx[k] == j,  old[j] elsewhere
+                rhs = self.eval(st.value, env)
+                return self.fancy_aug(base, idx, opname, rhs, st.lineno)
             cur = self.subscript(base, idx, st.lineno, env)
             rhs = self.eval(st.value, env)
             new = self.binop(opname, cur, rhs, st.lineno)
@@ -925,6 +931,14 @@ class Evaluator:
             r = self.contains(b, a, lineno)
             return r if name == "In" else self.truth_not(r)
         sym = {"Eq": "==", "NotEq": "!=", "Lt": "<", "LtE": "<=", "Gt": ">", "GtE": ">="}[name]
+        if is_array(a) and b is None and sym in ("==", "!="):
+            # numpy compares elementwise with None: never equal
+            return Arr(a.n, lambda j, _v=(sym == "!="): _v, "b") if not isinstance(a, Comp) else \
+                Comp(a.mask, lambda j, _v=(sym == "!="): _v, "b")
+        if isinstance(b, Col2D) and is_array(a) and sym == "==":
+            return PairMask(a, b.arr)
+        if isinstance(a, Col2D) and is_array(b) and sym == "==":
+            return PairMask(b, a.arr)
         if hasattr(a, "cmp"):
             return a.cmp(sym, b)
         if hasattr(b, "cmp"):
@@ -1082,6 +1096,14 @@ class Evaluator:
                     if ca:
                         return Comp(c.mask, lambda j: f(fc(j), v), kind or c.kind)
                     return Comp(c.mask, lambda j: f(v, fc(j)), kind or c.kind)
+            # positional view of the compressed operand: k -> value at the k-th selected position
+            if same_term(o.n, V.count_term(c.mask)) or (isinstance(o.n, Count) and o.n.mask is c.mask):
+                self.add_sel_axioms(c.mask)
+                sel, fc, fo = V.sel_fn(c.mask), c.f, o.f
+                cn = V.count_term(c.mask)
+                if ca:
+                    return Arr(cn, lambda k: f(fc(sel(V.I(k))), fo(k)), kind or c.kind)
+                return Arr(cn, lambda k: f(fo(k), fc(sel(V.I(k)))), kind or c.kind)
             self.safety("shape", False, lineno)
             raise Unsupported("compressed array combined with full array (line %d)" % lineno)
         fa, fb = a.f, b.f
@@ -1176,13 +1198,25 @@ class Evaluator:
         if isinstance(base, (Arr, ColView)):
             return self.arr_get(base, idx, lineno, env)
         if isinstance(base, Comp):
+            if isinstance(idx, tuple) and len(idx) == 2 and isinstance(idx[0], SliceV) and idx[1] is None:
+                return Col2D(base)
             raise Unsupported("indexing a compressed array (line %d)" % lineno)
         raise Unsupported("subscript of %r (line %d)" % (base, lineno))
 
     def arr_get(self, a, idx, lineno, env):
+        if isinstance(idx, tuple) and len(idx) == 2 and isinstance(idx[0], SliceV) and idx[1] is None \
+                and idx[0].lo is None and idx[0].hi is None:
+            return Col2D(a)
         if isinstance(idx, SliceV):
             if idx.lo is None and idx.hi is None and idx.step is None:
                 return a
+            if idx.step is None and not isinstance(a, Comp):
+                lo = 0 if idx.lo is None else idx.lo
+                hi = a.n if idx.hi is None else idx.hi
+                if (isinstance(lo, int) and lo < 0) or (isinstance(hi, int) and hi < 0):
+                    raise Unsupported("negative slice bound (line %d)" % lineno)
+                af = a.f
+                return Arr(arith("-", hi, lo), lambda j, _lo=lo: af(arith("+", j, _lo)), a.kind)
             raise Unsupported("slice of 1-D array (line %d)" % lineno)
         if is_array(idx):
             if idx.kind == "b":
@@ -1336,7 +1370,29 @@ class Evaluator:
                 else:
                     put(lambda j, _v=v: _v)
                 return
-            raise Unsupported("slice store (line %d)" % lineno)
+            if idx.step is not None:
+                raise Unsupported("strided slice store (line %d)" % lineno)
+            lo = 0 if idx.lo is None else idx.lo
+            hi = a.n if idx.hi is None else idx.hi
+            if (isinstance(lo, int) and lo < 0) or (isinstance(hi, int) and hi < 0):
+                raise Unsupported("negative slice bound in a store (line %d)" % lineno)
+            inside = lambda j: band(compare(">=", j, lo), compare("<", j, hi))
+            seglen = arith("-", hi, lo)
+            if isinstance(a, Arr):
+                a.__dict__.setdefault("segments", []).append((lo, hi, v))   # store log (engine E3)
+            if isinstance(v, Comp):
+                sel = V.sel_fn(v.mask)
+                self.add_sel_axioms(v.mask)
+                vf = v.f
+                self.safety("tiling", compare("==", seglen, V.count_term(v.mask)), lineno)
+                put(lambda j: ite(inside(j), vf(sel(V.I(arith("-", j, lo)))), old(j)))
+            elif is_array(v):
+                vf = v.f
+                self.safety("tiling", compare("==", seglen, v.n), lineno)
+                put(lambda j: ite(inside(j), vf(arith("-", j, lo)), old(j)))
+            else:
+                put(lambda j: ite(inside(j), v, old(j)))
+            return
         if isinstance(idx, SetVal):
             mem = idx.member
             if is_array(v):
@@ -1373,6 +1429,61 @@ class Evaluator:
         if is_array(idx) or type(idx).__name__ == "WhereIdx":
             return self.fancy_store(a, idx, v, lineno, put, old)
         raise Unsupported("store index %r (line %d)" % (idx, lineno))
+
+    def fancy_aug(self, a, idx, opname, v, lineno):
+        old = a.snapshot().f
+        sym = "+" if opname == "Add" else "-"
+        if isinstance(idx, Comp) and getattr(idx, "identity", False) or \
+                (isinstance(idx, Comp) and idx.__dict__.get("_is_where")):
+            pass
+        hit = (lambda j: member(idx, j))
+        if is_array(v):
+            if isinstance(idx, Comp) and isinstance(v, Comp):
+                self.same_mask(idx.mask, v.mask, lineno)
+            elif not isinstance(idx, Comp) and not isinstance(v, Comp):
+                self.same_len(idx.n, v.n, lineno)
+            key_fn = getattr(v, "key_fn", None)
+            if key_fn is not None and getattr(v, "keys", None) is idx:
+                val_at = lambda j: key_fn(V.I(j))           # value of the group whose key is j
+            elif isinstance(idx, Comp) and isinstance(v, Comp):
+                # idx = g(b), v = w(b) on the same selected b: invert g on its image
+                inv = z3.Function("ainv!%d" % next(V._counter), z3.IntSort(), z3.IntSort())
+                jj = fresh("j")
+                gi, vf, m = idx.f, v.f, idx.mask
+                self.path.facts.append(z3.ForAll([jj], z3.Implies(
+                    z3.And(jj >= 0, B(compare("<", jj, m.n)), B(m.f(jj))), inv(V.I(gi(jj))) == jj)))
+                val_at = lambda j: vf(inv(V.I(j)))
+            else:
+                if isinstance(v, Comp) and not isinstance(idx, Comp) and \
+                        (same_term(idx.n, V.count_term(v.mask)) or (isinstance(idx.n, Count) and idx.n.mask is v.mask)):
+                    self.add_sel_axioms(v.mask)
+                    sel_, vf0 = V.sel_fn(v.mask), v.f
+                    v = Arr(V.count_term(v.mask), lambda k: vf0(sel_(V.I(k))), v.kind)
+                iv = idx if not isinstance(idx, Comp) else None
+                if iv is None or isinstance(v, Comp):
+                    raise Unsupported("augmented fancy store with mixed compressed operands (line %d)" % lineno)
+                inv = z3.Function("ainv!%d" % next(V._counter), z3.IntSort(), z3.IntSort())
+                jj = fresh("j")
+                idxf, vf = idx.f, v.f
+                self.path.facts.append(z3.ForAll([jj], z3.Implies(
+                    z3.And(jj >= 0, B(compare("<", jj, idx.n))), inv(V.I(idxf(jj))) == jj)))
+                val_at = lambda j: vf(inv(V.I(j)))
+        else:
+            val_at = lambda j: v
+        newf = (lambda j: ite(hit(j), arith(sym, old(j), val_at(j)), old(j)))
+        if isinstance(a, ColView):
+            a.pit.set_col(a.c, newf)
+        else:
+            a.f = newf
+
+    def add_sel_axioms(self, mask):
+        if not mask.__dict__.get("_sel_ax_added"):
+            mask.__dict__["_sel_ax_added"] = True
+            self._sel_masks = getattr(self, "_sel_masks", [])
+            self._sel_masks.append(mask)
+        for ax in V.sel_axioms(mask):
+            if not any(ax.eq(f) for f in self.path.facts):
+                self.path.facts.append(ax)
 
     def fancy_store(self, a, idx, v, lineno, put, old):
         """a[idx] = v with an integer index array.  Positions not hit keep their value; a position
